@@ -128,10 +128,14 @@ func genC14(r *mrand.Rand, i int) c14Case {
 		if !isPlus(c.Mech) {
 			c.Via = "direct"
 		}
-	case 1:
-		if isScram(c.Mech) && !isPlus(c.Mech) {
+	case 1, 2:
+		if !isPlus(c.Mech) {
 			c.Via = "retry"
-			c.RetryVariant = gen.Pick(r, []string{"same", "iter", "iter", "salt", "both", "nonce"})
+			vars := []string{"same", "first-454-step1", "first-454-step2", "first-535-final", "first-drop-step1"}
+			if isScram(c.Mech) {
+				vars = append(vars, "iter", "iter", "salt", "both", "nonce")
+			}
+			c.RetryVariant = gen.Pick(r, vars)
 			if c.SaltLen == 0 {
 				c.SaltLen = 16
 			}
@@ -167,6 +171,19 @@ func (c *c14Case) srv(n int) *authSrv {
 			saltSeed = 55
 		case "nonce":
 			a.ServerNonce = c.Nonce + "Second"
+		}
+	}
+	if n == 0 {
+		// the first attempt on the Auth object is cut short by the server at some step
+		switch c.RetryVariant {
+		case "first-454-step1":
+			a.Fault, a.FaultStep = "454", 1
+		case "first-454-step2":
+			a.Fault, a.FaultStep = "454", 2
+		case "first-535-final":
+			a.Fault, a.FaultStep = "535", 3
+		case "first-drop-step1":
+			a.Fault, a.FaultStep = "drop", 1
 		}
 	}
 	if c.Wrong {
@@ -305,6 +322,11 @@ func runC14Case(r *ev.Run, c c14Case, nonces *c14Nonces) {
 			continue
 		}
 		wantAccept := !c.Wrong
+		if a.Fault != "" {
+			// the server cut this attempt short on purpose: only client/verifier agreement is judged
+			r.Count("attempts_cut_short_by_server", 1)
+			continue
+		}
 		if c.Admissible && res.Accepted != wantAccept {
 			viol(fmt.Sprintf("interop:%s:%s/%s:wrong=%t", c.Mech, c.UserClass, c.PassClass, c.Wrong), fmt.Sprintf("conforming verifier accepted=%t, but the credentials are right=%t: %s", res.Accepted, wantAccept, res.Reason), res)
 		}
